@@ -28,6 +28,16 @@ def alg_cases(rng, tier):
             ty = "I" if (i % 3 == ALGS.index(alg)) and gen.int_domain_ok(g) else "D"
             scale = 0 if ty == "I" else rng.choice([0, 0, -3, 5])
             cases.append(("A %s %s %d %s" % (alg, ty, scale, gt), g, style))
+    # sparse graphs with few distinct weights (many equally heavy shortest paths that differ in several interior vertices, long even cycles): the
+    # inputs on which the tie-breaking of the shortest-path trees decides what the tree-based variants' collections contain (seeded change C02/r4m1)
+    for i in range(500 if tier == "quick" else 4000):
+        n = rng.randint(6, 14 if tier == "quick" else 24)
+        g = gen.random_connected_sparse(rng, n, rng.randint(1, 6))
+        wmax = rng.choice([1, 1, 2, 3])
+        g = (g[0], [(u, v, rng.randint(1, wmax)) for (u, v, _) in g[1]])
+        gt = gen.graph_tokens(g)
+        for alg in ("fvs", "iso"):
+            cases.append(("A %s D 0 %s" % (alg, gt), g, "sparse-ties"))
     return cases
 
 
